@@ -26,7 +26,7 @@ fn main() {
             };
             let seed: u64 = args.get(2).and_then(|s| s.parse().ok()).unwrap_or(1);
             let r = run_scenario(&sc, &Strategy::Random, seed, 5000);
-            print!("{}", trace_text(&r.trace));
+            print!("{}", trace_text(&r.trace, &r.names));
             eprintln!("outcome {:?} steps {} threads {} panics {:?}", r.outcome, r.steps, r.nthreads, r.panics);
             for c in &r.calls {
                 eprintln!("{:?}", c);
